@@ -96,6 +96,8 @@ def run_case(ctx, case):
     for fn, data in g.bare[3].items():
         if GC.elsewhere(fn):
             continue                      # written under $TMPDIR / $HOME, not in the working directory
+        if any(f['name'] == fn and f['kind'] == 'text' and any(GC.TMPDIR_TOKEN in l for l in f['lines']) for f in spec['files']):
+            continue                      # its content names the run's own $TMPDIR: every run writes another
         p = os.path.join(g.workdir, fn)
         if not os.path.exists(p):
             rec.violation('command_output_removed', {'case': case, 'mech': mech, 'facts': {'file': fn}})
